@@ -106,6 +106,27 @@ func (e *scriptExec) Exec(t persistedretry.Task) error {
 	return nil
 }
 
+// countingStore delegates to the real store and counts GetFailed calls, i.e.
+// completed-or-started poll rounds of the manager's ticker loop.
+type countingStore struct {
+	persistedretry.Store
+	mu    sync.Mutex
+	polls int
+}
+
+func (c *countingStore) GetFailed() ([]persistedretry.Task, error) {
+	c.mu.Lock()
+	c.polls++
+	c.mu.Unlock()
+	return c.Store.GetFailed()
+}
+
+func (c *countingStore) count() int {
+	c.mu.Lock()
+	defer c.mu.Unlock()
+	return c.polls
+}
+
 type row struct {
 	Key      string `json:"key"`
 	Status   string `json:"status"`
@@ -118,6 +139,7 @@ type mgrState struct {
 	QRetry   int      `json:"q_retry"`
 	Workers  int      `json:"workers"`
 	Inflight []string `json:"inflight"`
+	Polls    int      `json:"polls"`
 	Err      string   `json:"err,omitempty"`
 }
 
@@ -127,6 +149,7 @@ type mgr struct {
 	query  string
 	prefix string
 	exec   *scriptExec
+	cs     *countingStore
 }
 
 const (
@@ -138,6 +161,7 @@ func (g *mgr) state() mgrState {
 	var st mgrState
 	// queue lengths first, then rows: a task moving queue -> worker in between
 	// is covered by the worker count
+	st.Polls = g.cs.count()
 	st.QIn, st.QRetry, st.Workers = persistedretry.VerifC30QueueLens(g.m)
 	g.exec.mu.Lock()
 	for k := range g.exec.inflight {
@@ -243,13 +267,15 @@ func main() {
 	trStore, err := tagreplication.NewStore(db, remotes)
 	must(err, "tagreplication store")
 
-	wbm, err := persistedretry.NewManager(cfg, tally.NoopScope, wbStore, wbExec)
+	wbCS := &countingStore{Store: wbStore}
+	wbm, err := persistedretry.NewManager(cfg, tally.NoopScope, wbCS, wbExec)
 	must(err, "writeback manager")
-	wb := &mgr{wbm, db, wbQuery, "wb", wbExec}
+	wb := &mgr{wbm, db, wbQuery, "wb", wbExec, wbCS}
 	wbStart := wb.state() // immediately after the constructor returned
-	trm, err := persistedretry.NewManager(cfg, tally.NoopScope, trStore, trExec)
+	trCS := &countingStore{Store: trStore}
+	trm, err := persistedretry.NewManager(cfg, tally.NoopScope, trCS, trExec)
 	must(err, "tagreplication manager")
-	tr := &mgr{trm, db, trQuery, "tr", trExec}
+	tr := &mgr{trm, db, trQuery, "tr", trExec, trCS}
 	trStart := tr.state()
 
 	out := bufio.NewWriter(os.Stdout)
